@@ -212,6 +212,24 @@ Proof.
   destruct (less_equal_pointwise (t_req t) (n_idle n) d Hle) as [Hz|Hlt]; [rewrite Hz|]; specialize (Hi d Hd); lia.
 Qed.
 
+(* On the bind path NO dimension is exempt: the re-check is LessEqualWithResourcesName over every key
+   of the request, 'pods' included.  The same statement over ALL dimensions: *)
+Definition idle_all_ok (n : node) : Prop := sc (n_idle n) <> None /\ forall d, - eps < amt (n_idle n) d.
+
+Theorem node_add_binding_keeps_idle_all n t n' t' :
+  idle_all_ok n -> t_status t = Binding ->
+  node_add eps n t = inl (n', t') -> idle_all_ok n'.
+Proof.
+  intros [Hs Hi] Est. unfold node_add. repeat case_bool_decide; try discriminate.
+  destruct (n_has_node n); simpl.
+  2:{ intros Hq; inversion Hq; subst. split; assumption. }
+  rewrite Est. destruct (less_equal_names eps (t_req t) (n_idle n) DZero) eqn:Hle; [|discriminate].
+  intros Hq; inversion Hq; subst. split; simpl; [apply sc_sub_some; exact Hs|].
+  intros d. rewrite amt_sub_exact by exact Hs.
+  rewrite (less_equal_names_zero eps) in Hle.
+  destruct (less_equal_pointwise (t_req t) (n_idle n) d Hle) as [Hz|Hlt]; [rewrite Hz|]; specialize (Hi d); lia.
+Qed.
+
 (* ... and the whole of it when nothing is pipelined beyond what is being released (true of every
    node of the scheduler cache, where no task is ever Pipelined) *)
 Definition pip_le_rel (n : node) : Prop := forall d, amt (n_pipelined n) d <= amt (n_releasing n) d.
